@@ -542,6 +542,7 @@ class Config:
         self.eager_generators = True
         self.builtins: Dict[str, Any] = {}
         self.no_inline: set = set()
+        self.expr_attr_hook = None  # optional fn(interp, z3expr, attr-name) -> value: attributes of symbolic scalars that stand for objects (a dtype)
 
 
 class LoopSpec:
@@ -1005,6 +1006,10 @@ class Interp:
                 return obj.args
             raise Unsupported(f"attribute {name} of exception")
         if z3.is_expr(obj):
+            if self.cfg.expr_attr_hook is not None:
+                hv = self.cfg.expr_attr_hook(self, obj, name)
+                if hv is not _MISSING and hv is not None:
+                    return hv
             raise Unsupported(f"attribute {name} of symbolic scalar {obj}")
         if hasattr(obj, "__sym_getattr__"):
             return obj.__sym_getattr__(self, name)
